@@ -320,7 +320,7 @@ func genEnvPatch(c0 *Chain, r *Rng, side *Sidecar) *envPatch {
 	}
 	for i, n := 0, r.Intn(4); i < n; i++ {
 		var s acctSpec
-		switch r.Intn(8) {
+		switch r.Intn(10) {
 		case 0, 1:
 			s.Addr, s.Class = cpctypes.CpcBech32FixedAddress, "bech32-precompile"
 		case 2, 3:
@@ -329,7 +329,7 @@ func genEnvPatch(c0 *Chain, r *Rng, side *Sidecar) *envPatch {
 			s.Addr, s.Class = nextDynAt(seq), "next-dynamic-precompile"
 		case 5:
 			s.Addr, s.Class = nextDynAt(seq+1), "next-dynamic-precompile+1"
-		case 6:
+		case 6, 7, 8:
 			w := c0.S.WalletAccounts.Number(1 + r.Intn(5))
 			s.Addr, s.Class = w.ComputeContractAddress(c0.Nonce(c0.QueryCtx(), w.GetEthAddress())+uint64(r.Intn(3))), "predicted-contract"
 		default:
